@@ -24,7 +24,9 @@ RULE = ('one bucket per factorization x shape class (square/tall/wide) resp. spe
         '(cholesky), symmetric with eigenvalue gaps >= 0.3 (eigh distinct), V diag(lambda) V^-1 with real separated or '
         'complex-pair spectrum (eig); repeated symmetric spectra: whole curves A(t) = Q(t) Lambda(t) Q(t)^T mod t^D with '
         'Q(t) = Q0 exp(S(t)), S skew polynomial, and eigenvalue curves of a block agreeing up to a drawn order and '
-        'separating (by >= 0.3 in that coefficient) at order 1, 2, ... or never, recursively; higher coefficients otherwise '
+        'separating (by >= 0.3 in that coefficient) at order 1, 2, ... or never, recursively; near-degenerate buckets (eigh, svd): '
+        'one pair of DISTINCT eigen-/singular values at distance 1e-7..1e-3 (in A_0, or exactly repeated in A_0 and separating by that '
+        'little at order 1), D <= 4; higher coefficients (gen.higher_coeffs: dense, sparse, whole orders zero) otherwise '
         'arbitrary in [-1,1] (symmetrized for cholesky/eigh); non-trivial = D >= 3 and min(M,N) >= 2 (eig, which admits D <= 2 only: D = 2, N >= 2, A_1 != 0); distinct by '
         'descriptor hash')
 ASSUMPTIONS = [
@@ -35,6 +37,7 @@ ASSUMPTIONS = [
     'eig asserts D <= 2 (declared rejection above); spectra real-distinct or with complex conjugate pairs, all eigenvalues pairwise >= 0.3 apart',
     'cholesky / eigh inputs are symmetric at every order by construction; svd inputs have full rank min(M,N) with distinct singular values >= 0.3, gaps >= 0.3',
     'lu: P is returned as a permutation matrix W with A = W L U (scipy.linalg.lu convention), W constant; lu2/lu_factor: LAPACK pivot indices, row i swapped with row piv[i] in sequence',
+    'near-degenerate buckets: A Q = Q diag(lambda), U S V^T = A keep 1e-8; the orthogonality predicates use max(1e-8, 1e-13/gap) because vectors belonging to a gap g carry a relative error eps/g (measured <= 1e-16/g on the unchanged tree)',
     'NumPy, SciPy/LAPACK are trusted',
 ]
 
@@ -56,7 +59,7 @@ def _dims(Dmax=6):
 def hi_coeffs(draw, D, P, shape, sym=False, mag=1.0):
     if D == 1:
         return np.zeros((0, P) + tuple(shape))
-    H = draw(gen.float_array((D - 1, P) + tuple(shape), gen.coeff_elements(mag)))
+    H = draw(gen.higher_coeffs((D - 1, P) + tuple(shape), gen.coeff_elements(mag)))      # dense / sparse / zero layers
     if sym:
         H = 0.5 * (H + np.swapaxes(H, -1, -2))
     return H
@@ -213,11 +216,83 @@ def eigh_repeated_cases(draw, tier):
         Q0 = draw(gen.orthogonal(n))
         S = np.zeros((D, n, n))
         if D > 1:
-            X = draw(gen.float_array((D - 1, n, n), gen.coeff_elements(1.0)))
+            X = draw(gen.higher_coeffs((D - 1, n, n), gen.coeff_elements(1.0)))
             S[1:] = 0.5 * (X - np.swapaxes(X, -1, -2))
         A[:, p] = R.sym_curve(Q0, S, lam)
         meta.append({'blocks': [int(s) for s in sizes], 'splits': [[int(a), (b if b == 'never' else int(b))] for a, b in splits]})
     return {'op': 'eigh', 'cls': 'repeated', 'A': A, 'meta': meta}
+
+
+GAPS = st.one_of(st.sampled_from([1e-3, 1e-5, 1e-6, 3e-7]), gen.nice_floats(-7.0, -3.0).map(lambda e: float(10.0 ** e)))
+
+
+@st.composite
+def near_pair_values(draw, n, lo=0.2, shift=True):
+    """n ascending values: ONE pair at distance g in [1e-7, 1e-3], all other distances >= 0.3 - g"""
+    g = draw(GAPS)
+    if n == 2:
+        v = draw(gen.spaced_values(1, lo, 0.3))
+    else:
+        v = draw(gen.spaced_values(n - 1, lo, 0.3))
+    if shift:
+        v = v - draw(gen.nice_floats(0.0, 3.0))
+    i = draw(st.integers(0, len(v) - 1))
+    vals = np.concatenate([v[:i + 1], [v[i] + g], v[i + 1:]])
+    return vals, g, i
+
+
+@st.composite
+def eigh_near_cases(draw, tier):
+    """distinct but nearly repeated eigenvalues: 1e-7 <= gap <= 1e-3 (the code's own threshold for 'repeated' is 1e-8).
+    variants: generic = gap in A_0, arbitrary symmetric higher coefficients (eigenvector coefficients grow like
+    gap^-d); curve = gap in A_0, A(t) = Q(t) Lambda(t) Q(t)^T with bounded analytic eigenvectors; split = the pair is
+    exactly repeated in A_0 and separates by the small gap in the first-order coefficient"""
+    D, P = draw(gen.dims(Dmax=4, Pmax=2, Dmin=2))
+    n = draw(st.integers(2, 5))
+    variant = draw(st.sampled_from(['generic', 'generic', 'curve', 'split']))
+    A = np.zeros((D, P, n, n))
+    gmin = 1.0
+    for p in range(P):
+        vals, g, i = draw(near_pair_values(n))
+        gmin = min(gmin, g)
+        Q0 = draw(gen.orthogonal(n))
+        if variant == 'generic':
+            A0 = Q0 @ np.diag(vals) @ Q0.T
+            A[0, p] = 0.5 * (A0 + A0.T)
+            A[1:, p] = draw(hi_coeffs(D, 1, (n, n), sym=True))[:, 0]
+            continue
+        lam = np.zeros((D, n))
+        lam[1:] = draw(gen.float_array((D - 1, n), gen.coeff_elements(1.0), sparse=False))
+        if variant == 'curve':
+            lam[0] = vals
+        else:
+            lam[0] = vals
+            lam[0, i + 1] = vals[i]                    # exactly repeated at order 0 ...
+            lam[1, i + 1] = lam[1, i] + g              # ... separating by g at order 1
+        S = np.zeros((D, n, n))
+        X = draw(gen.higher_coeffs((D - 1, n, n), gen.coeff_elements(1.0)))
+        S[1:] = 0.5 * (X - np.swapaxes(X, -1, -2))
+        A[:, p] = R.sym_curve(Q0, S, lam)
+    return {'op': 'eigh', 'cls': 'near-degenerate', 'variant': variant, 'gap': float(gmin), 'A': A}
+
+
+@st.composite
+def svd_near_cases(draw, shape_class, tier):
+    D, P = draw(gen.dims(Dmax=4, Pmax=2, Dmin=2))
+    M, N = draw(mn(shape_class))
+    if min(M, N) < 2:
+        M, N = M + 1, N + 1
+    K = min(M, N)
+    A = np.zeros((D, P, M, N))
+    gmin = 1.0
+    for p in range(P):
+        vals, g, i = draw(near_pair_values(K, lo=0.3, shift=False))
+        gmin = min(gmin, g)
+        Smat = np.zeros((M, N))
+        Smat[:K, :K] = np.diag(vals[::-1])
+        A[0, p] = draw(gen.orthogonal(M)) @ Smat @ draw(gen.orthogonal(N)).T
+    A[1:] = draw(hi_coeffs(D, P, (M, N)))
+    return {'op': 'svd', 'shape': shape_class, 'cls': 'near-degenerate', 'gap': float(gmin), 'A': A}
 
 
 @st.composite
@@ -269,9 +344,18 @@ def _zeroth(got, ref, stats, what):
         raise Violation('%s: zeroth coefficient differs from the NumPy/SciPy factorization by %.2e (relative)' % (what, e))
 
 
-def _orth(Q, stats, what):
+def _orth(Q, stats, what, tol=TOL):
     D, m, k = Q.shape
-    R.eq_check(R.smul(R.sT(Q), Q), R.sident(k, D), R.term_scale(R.smul_abs(R.sT(Q), Q)), TOL, stats, what)
+    R.eq_check(R.smul(R.sT(Q), Q), R.sident(k, D), R.term_scale(R.smul_abs(R.sT(Q), Q)), tol, stats, what)
+
+
+def _orth_tol(case):
+    """eigen-/singular vectors belonging to a gap g are determined to a relative accuracy of eps/g only (already in
+    LAPACK's order-0 result); the orthogonality residual of the higher coefficients inherits that factor.  Measured on
+    the unchanged tree: <= 1e-16/g relative to the term magnitudes; allowed: 1e-13/g, never below the usual 1e-8.
+    The defining equation A Q = Q diag(lambda) keeps the plain tolerance."""
+    g = case.get('gap')
+    return TOL if not g else max(TOL, 1e-13 / g)
 
 
 def prop_qr(case, stats):
@@ -396,7 +480,7 @@ def prop_eigh(case, stats):
         Lp = R.sdiag(lp)
         R.eq_check(R.smul(Ap, Qp), R.smul(Qp, Lp), R.term_scale(R.smul_abs(Ap, Qp), R.smul_abs(Qp, Lp)), TOL, stats,
                    'eigh p=%d: A Q = Q diag(lambda)' % p)
-        _orth(Qp, stats, 'eigh p=%d: Q^T Q = I' % p)
+        _orth(Qp, stats, 'eigh p=%d: Q^T Q = I' % p, _orth_tol(case))
         w0, q0 = np.linalg.eigh(Ap[0])
         sc = max(1.0, float(np.abs(w0).max()))
         if np.any(np.diff(lp[0]) < -TOL0 * sc):
@@ -440,8 +524,8 @@ def prop_svd(case, stats):
         US = R.smul(Up, S)
         USa = R.smul_abs(Up, S)
         R.eq_check(R.smul(US, R.sT(Vp)), Ap, R.term_scale(R.smul_abs(USa, R.sT(Vp)), Ap), TOL, stats, 'svd p=%d: U diag(s) V^T = A' % p)
-        _orth(Up, stats, 'svd p=%d: U^T U = I' % p)
-        _orth(Vp, stats, 'svd p=%d: V^T V = I' % p)
+        _orth(Up, stats, 'svd p=%d: U^T U = I' % p, _orth_tol(case))
+        _orth(Vp, stats, 'svd p=%d: V^T V = I' % p, _orth_tol(case))
         s0 = sp[0]
         if np.any(s0 < 0) or np.any(np.diff(s0) > TOL0 * max(1.0, float(s0.max()))):
             raise Violation('svd p=%d: s_0 not descending and non-negative: %r' % (p, s0.tolist()))
@@ -476,8 +560,12 @@ def _classes(case):
             piv = scipy.linalg.lu_factor(A[0, p])[1]
             pv.append(bool(np.any(piv != np.arange(N))))
         c.append('pivoted=' + ('all-directions' if all(pv) else 'some-directions' if any(pv) else 'none'))
-    if case['op'] in ('eigh', 'eig'):
+    if case['op'] in ('eigh', 'eig') or case.get('cls') == 'near-degenerate':
         c.append('spectrum=' + case['cls'])
+    if case.get('gap'):
+        c.append('near-gap=1e%d..1e%d' % (int(np.floor(np.log10(case['gap']) + 1e-9)), int(np.floor(np.log10(case['gap']) + 1e-9)) + 1))
+        if 'variant' in case:
+            c.append('near-variant=' + case['variant'])
     for m in case.get('meta', []):
         c.append('blocks=' + '+'.join(str(b) for b in m['blocks']))
         for size, order in m['splits']:
@@ -508,6 +596,9 @@ def buckets(tier):
         add(op + ':pivoting', (lambda op=op: lu_cases(op, 'pivot', tier)), prop, 100, 1000, 2, 2.0)
     add('eigh:distinct', (lambda: eigh_distinct_cases(tier)), prop_eigh, 150, 1500, 3, 4.0)
     add('eigh:repeated', (lambda: eigh_repeated_cases(tier)), prop_eigh, 200, 1500, 6, 6.0)
+    add('eigh:near-degenerate', (lambda: eigh_near_cases(tier)), prop_eigh, 200, 1500, 3, 4.0)
+    for sc in ('square', 'tall', 'wide'):
+        add('svd:near-degenerate:' + sc, (lambda sc=sc: svd_near_cases(sc, tier)), prop_svd, 60, 500, 2, 8.0)
     add('eig:real', (lambda: eig_cases('real', tier)), prop_eig, 150, 1500, 1, 1.0)
     add('eig:complex-pairs', (lambda: eig_cases('complex', tier)), prop_eig, 150, 1500, 1, 1.0)
     add('eig:D>2', (lambda: eig_cases('real', tier, Dmax=6, Dmin=3)), prop_eig, 20, 100, 1, 1.0)
